@@ -1,4 +1,5 @@
 """C13 - Weeding removes exactly the k-mers of the weed sequences and nothing else."""
+import os
 import random
 
 from .. import gen as G
@@ -11,7 +12,7 @@ LEVEL = 'exploration'
 BUDGET = {'quick': 150, 'thorough': 1800}
 CHUNK = 2
 RULE = ('Cases: files of 2..6 samples and a weed FASTA made of pieces of the samples (some reverse-complemented, mutated, '
-        'containing N, lower case), random sequence, records shorter than k, everything (empty result) or nothing.  '
+        'containing N, lower case, a fifth gzipped), random sequence, records shorter than k, everything (empty result) or nothing; a few files per run hold thousands of rows and are weeded with thousands of k-mers; the result is written in place, with -o over an existing larger file (the input must stay untouched), or with -o naming the input.  '
         '`ska weed x.skf seqs.fa --min-freq 0` and `--reverse` are compared with the model (rows whose arms are / are not in '
         'the model dictionary of seqs.fa at the file\'s k and strand mode); the stored result is also decoded through the harness (k-mer integers, rows, per-row counts, container lengths); forward and reverse results must partition the '
         'original, surviving rows keep all bases, names are unchanged, a second identical weed changes nothing.  In '
@@ -20,7 +21,8 @@ RULE = ('Cases: files of 2..6 samples and a weed FASTA made of pieces of the sam
 ASSUMPTIONS = ['frequency filtering is switched off with --min-freq 0 as the statement requires',
                'the model dictionary of the weed file is computed by vlib/model.py']
 REQUIRED = {t: ['weed:forward', 'weed:reverse', 'partition_checked', 'idempotence_checked', 'weed_all', 'weed_nothing',
-                'single_strand_rc_not_matched', 'rows_removed', 'rows_kept', 'width64', 'width128', 'stored_objects_checked'] for t in ('quick', 'thorough')}
+                'single_strand_rc_not_matched', 'rows_removed', 'rows_kept', 'width64', 'width128', 'stored_objects_checked',
+                'weed_file_gzipped', 'out:inplace', 'out:same-file', 'out:other-existing-file', 'files_of_4096+_rows'] for t in ('quick', 'thorough')}
 
 
 def builds(tier):
@@ -37,8 +39,12 @@ def plan(tier, seed, rng, scale):
     for i in range(n):
         descs.append({'k': rng.choice(G.ALL_K), 'rc': rng.random() < 0.65,
                       'kind': rng.choice(['pieces'] * 6 + ['all', 'nothing', 'ssrc']), 'seed': rng.getrandbits(32)})
+    for i in range(int((6 if tier == 'quick' else 60) * max(scale, 0.25))):
+        # large files (thousands of rows) weeded with thousands of k-mers: rows at any place of the stored table go
+        descs.insert(40 + 5 * i, {'k': rng.choice([15, 21, 31, 33, 41]), 'rc': rng.random() < 0.65, 'kind': 'pieces',
+                                  'large': rng.choice([3000, 8000, 20000] if tier == 'quick' else [3000, 8000, 20000, 50000]), 'seed': rng.getrandbits(32)})
     for i, d in enumerate(descs):
-        d['chk'] = (i % 7 == 0)
+        d['chk'] = (i % 7 == 0) and not d.get('large')
     return descs
 
 
@@ -84,14 +90,27 @@ def run_case(desc, ctx):
     k, rcmode, kind = desc['k'], desc['rc'], desc['kind']
     rng = random.Random(desc['seed'])
     ns = rng.randint(2, 6)
-    samples = c07.gen_samples(rng, k, ns)
+    if desc.get('large'):
+        ns = rng.randint(2, 3)
+        shared = G.rseq(rng, desc['large'] // 3)
+        samples = [[G.rseq(rng, rng.randint(desc['large'] // 3, desc['large'])), shared] for _ in range(ns)]
+    else:
+        samples = c07.gen_samples(rng, k, ns)
     if any(not M.build(r, k, rcmode) for r in samples):
         res.count('degenerate_sample_skipped')
         return res
     wrecs = gen_weed(rng, samples, k, kind, rcmode)
+    if desc.get('large'):
+        for _ in range(rng.randint(3, 12)):
+            src = rng.choice(rng.choice(samples))
+            a = rng.randrange(len(src))
+            wrecs.append(src[a:a + rng.randint(k, desc['large'] // 4)])
     wk = set(M.build(wrecs, k, rcmode))
     files = [G.write_fa(ctx.path('s%d.fa' % i), recs) for i, recs in enumerate(samples)]
-    G.write_fa(ctx.path('weed.fa'), wrecs, wrap=rng.choice([0, 0, 60]))
+    gz = rng.random() < 0.2
+    weedfile = G.write_fa(ctx.path('weed.fa.gz' if gz else 'weed.fa'), wrecs, wrap=rng.choice([0, 0, 60]), gz=gz)
+    if gz:
+        res.count('weed_file_gzipped')
     res.see('k_rc', '%d/%s' % (k, 'rc' if rcmode else 'ss'))
     res.count('width64' if k <= 31 else 'width128')
     for variant in (['rel', 'chk'] if desc.get('chk') else ['rel']):
@@ -106,9 +125,16 @@ def run_case(desc, ctx):
         for rev in (False, True):
             ctx.write('w.skf', original)
             inplace = rng.random() < 0.5
-            outargs = [] if inplace else ['-o', ctx.path('wo.skf')]
-            result_file = ctx.path('w.skf') if inplace else ctx.path('wo.skf')
-            p = ctx.sh(b, 'weed', ctx.path('w.skf'), ctx.path('weed.fa'), '--min-freq', '0', *outargs, *(['--reverse'] if rev else []))
+            samefile = (not inplace) and rng.random() < 0.25          # -o naming the input file itself
+            outargs = [] if inplace else ['-o', ctx.path('w.skf' if samefile else 'wo.skf')]
+            result_file = ctx.path('w.skf') if inplace or samefile else ctx.path('wo.skf')
+            if not inplace and not samefile:
+                ctx.write('wo.skf', os.urandom(len(original) + 5000))            # an older, larger file of that name exists
+            p = ctx.sh(b, 'weed', ctx.path('w.skf'), weedfile, '--min-freq', '0', *outargs, *(['--reverse'] if rev else []))
+            if variant == 'rel':
+                res.count('out:' + ('inplace' if inplace else 'same-file' if samefile else 'other-existing-file'))
+                if len(T) >= 4096:
+                    res.count('files_of_4096+_rows')
             if variant == 'chk':
                 res.count('chk_runs')
                 if p.returncode != 0 and 'overflow' in p.stderr:
@@ -144,6 +170,8 @@ def run_case(desc, ctx):
             for f in ('k', 'rc', 'samples'):
                 if hw.get(f) != hdr.get(f):
                     bad.append('header %s changed' % f)
+            if not inplace and not samefile and open(ctx.path('w.skf'), 'rb').read() != original:
+                bad.append('input file modified although -o names another file')
             if variant == 'rel' and not bad and exp:
                 # the stored object itself: decoded k-mer integers, rows, per-row counts, lengths of the parallel containers
                 bad += G.stored_problems(ctx, result_file, exp, hdr.get('names'), k, rcmode)
@@ -157,7 +185,7 @@ def run_case(desc, ctx):
             if variant != 'rel':
                 continue
             # idempotence
-            p2 = ctx.sh(b, 'weed', result_file, ctx.path('weed.fa'), '--min-freq', '0', *(['--reverse'] if rev else []))
+            p2 = ctx.sh(b, 'weed', result_file, weedfile, '--min-freq', '0', *(['--reverse'] if rev else []))
             res.evals += 1
             if p2.returncode == 0:
                 h2, T2 = G.nk(ctx, result_file, binary=b)
